@@ -17,6 +17,15 @@ SET_RE = re.compile(r"\{([^{}]*)\}")
 
 
 def subset_canon(impl, model):
+    if ";" in model and "AMBIG" in model:
+        # c18.project: from the step where an earlier random choice among tied candidates decided the control
+        # flow (model prints AMBIG) the implementation's answers are not predicted: compare the steps before it
+        ms, is_ = model.split(";"), impl.split(";")
+        if len(ms) != len(is_):
+            return impl
+        k = ms.index("AMBIG")
+        head = subset_canon(";".join(is_[:k]), ";".join(ms[:k])) if k > 0 else ""
+        return model if (k == 0 or head == ";".join(ms[:k])) else impl
     a, b = SET_RE.split(impl), SET_RE.split(model)
     if len(a) != len(b) or len(a) < 3:
         return impl
@@ -257,14 +266,112 @@ def gen_openlist(rng, tier):
     return out
 
 
+# ----------------------------------------------------------------------------- c18.project
+def extractable(kind, s):
+    """the module string is one the regular expressions of GetOpenFileStr extract at the cursor (oracle boundary)"""
+    if not s or not re.fullmatch(r"[0-9a-zA-Z_/.\-]+", s):
+        return False
+    if kind == "d":
+        return s.endswith(".lua") and re.fullmatch(r"[0-9a-zA-Z_/\-]+", s[:-4]) is not None
+    return ('require("' + s + '")').find(s) == 9
+
+
+def gen_project(rng, tier):
+    n = {"quick": 400, "thorough": 8000, "search": 400}[tier]
+    out = []
+    while len(out) < n:
+        files = {f: k for f, k in gen_tree(rng, rng.random() < 0.08).items() if k in "LD"}
+        lua = [f for f in files if files[f] == "L"]
+        if not lua:
+            continue
+        cur = "main.lua" if rng.random() < 0.5 else rng.choice(DIRS) + "/main.lua"
+        if cur in files or any(o.startswith(cur + "/") or cur.startswith(o + "/") for o in files):
+            continue
+        refs = []
+        for _ in range(rng.randrange(1, 4)):
+            kind = rng.choice("rrrd")
+            s_ = module_strings(rng, files, False)
+            if kind == "d":
+                s_ = s_.replace(".lua", "").replace(".", "/") + ".lua"
+            if extractable(kind, s_) and "//" not in s_ and not s_.startswith("/"):
+                refs.append(kind + hx(s_))
+        if not refs:
+            continue
+        present = set(lua)
+        gone = []
+        evs = []
+        for _ in range(rng.randrange(0, 6)):
+            x = rng.random()
+            if x < 0.4 and present:
+                f = rng.choice(sorted(present))
+                evs.append("d" + hx(f)); present.discard(f); gone.append(f)
+            elif x < 0.6 and gone:
+                f = rng.choice(gone)
+                evs.append("c" + hx(f)); present.add(f)
+            else:
+                # create what a reference is looking for, a duplicate base name elsewhere, or an init.lua variant
+                r = rng.choice(refs)
+                stem = bytes.fromhex(r[1:]).decode("latin1")
+                stem = stem[2:] if stem.startswith("./") else stem
+                stem = (stem[:-4] if r[0] == "d" else stem.replace(".", "/"))
+                y = rng.random()
+                if y < 0.4:
+                    f = stem + ".lua"
+                elif y < 0.6:
+                    f = stem + "/init.lua"
+                elif y < 0.85:
+                    f = rng.choice(DIRS) + "/" + stem + ".lua"
+                else:
+                    f = rand_rel(rng, 0.0)
+                comps = f.split("/")
+                if any(c in ("", ".", "..") for c in comps) or f == cur or not f.endswith(".lua"):
+                    continue
+                allf = set(files) | present | {cur}
+                if any(o.startswith(f + "/") or f.startswith(o + "/") for o in allf):
+                    continue
+                evs.append("c" + hx(f)); present.add(f)
+        fl = ",".join(files[f] + hx(f) for f in sorted(files, key=lambda z: rng.random()))
+        out.append("%s %s %s %s %s" % (hx(new_root(rng)), fl, hx(cur), ",".join(refs), ",".join(evs) if evs else "-"))
+    return out
+
+
+def project_describe(c):
+    try:
+        dec = lambda h: "" if h == "-" else bytes.fromhex(h).decode("latin1")
+        f = c.split(" ")
+        return "files=[%s] cur=%s refs=[%s] events=[%s]" % (
+            " ".join(x[0] + ":" + dec(x[1:]) for x in f[1].split(",")), dec(f[2]),
+            " ".join(x[0] + ":" + dec(x[1:]) for x in f[3].split(",")),
+            " ".join(x[0] + ":" + dec(x[1:]) for x in f[4].split(",")) if f[4] != "-" else "")
+    except Exception:
+        return c[:200]
+
+
+def shrink_project(case):
+    f = case.split(" ")
+    for col in (4, 3, 1):
+        if f[col] == "-":
+            continue
+        l = f[col].split(",")
+        for i in range(len(l)):
+            r = l[:i] + l[i + 1:]
+            if r or col == 4:
+                g = list(f)
+                g[col] = ",".join(r) if r else "-"
+                yield " ".join(g)
+
+
 LEGS = [
     Leg("c18.index", lambda rng, tier: gen_index_ops(rng, tier, True), shrink=shrink_index, nontrivial=index_nontrivial),
     Leg("c18.index_any", lambda rng, tier: gen_index_ops(rng, "search" if tier == "quick" else tier, False)[:600 if tier == "quick" else None],
         deciding=False, nontrivial=index_nontrivial),
     Leg("c18.resolve", gen_resolve, shrink=shrink_resolve, per_case_s=0.2, describe=resolve_describe),
     Leg("c18.openlist", gen_openlist),
+    Leg("c18.project", gen_project, shrink=shrink_project, per_case_s=1.0, describe=project_describe,
+        nontrivial=lambda c: c.split(" ")[4] != "-"),
 ]
 LEGS[2].set_valued = True
+LEGS[4].set_valued = True
 
 TRUSTED = vlib.TRUSTED_COMMON + [
     "oracle: the file system (filefolder.IsFileExist behind FileExistCache) = Section variable disk; the OCaml driver's path normalisation stands for the OS",
